@@ -385,12 +385,22 @@ def reuse_call(v, d, S, op, x):
 
 
 def run_history(d, S, hist):
-    """One validator object, the calls of `hist` in order; None or (index, kind, site) of the first undocumented escape."""
+    """One validator object, the calls of `hist` in order; None or (index, kind, site) of the first undocumented escape.
+    "hold" starts an iteration, takes its first error and keeps the iterator; "resume" finishes the oldest held one."""
     v = _e1.CLS[d](S)
+    held = []
     for i, (op, xi) in enumerate(hist):
         signal.setitimer(signal.ITIMER_REAL, 5.0)
         try:
-            reuse_call(v, d, S, op, REUSE_INSTANCES[xi])
+            if op == "hold":
+                it = v.iter_errors(REUSE_INSTANCES[xi])
+                next(it, None)
+                held.append(it)
+            elif op == "resume":
+                if held:
+                    list(held.pop(0))
+            else:
+                reuse_call(v, d, S, op, REUSE_INSTANCES[xi])
         except exceptions.RefResolutionError:
             pass
         except exceptions.UnknownType:
@@ -410,6 +420,7 @@ def run_reuse(unit, ctx):
     signal.signal(signal.SIGALRM, _alarm)
     schemas_ = [S for S in reuse_schemas(d) if ok_schema(d, S)]
     ops = [(op, xi) for op in REUSE_OPS for xi in range(len(REUSE_INSTANCES))]
+    hold_ops = [("hold", xi) for xi in range(len(REUSE_INSTANCES))]
     depth = 3 if ctx.thorough else 2
     ev = nsch = 0
     viol, outcomes, samples = [], {}, []
@@ -429,6 +440,20 @@ def run_reuse(unit, ctx):
                                  "case": {"kind": "reuse", "draft": d, "schema": S,
                                           "history": [[op, REUSE_INSTANCES[xi]] for op, xi in hist[:r[0] + 1]]},
                                  "detail": {"exception": r[1], "where": r[2], "failing_call": r[0]}})
+        # an iteration that is started, left suspended while another call runs, finished, and followed by a call
+        for h in hold_ops:
+            for mid in ops:
+                for last in ops[::3]:
+                    hist = (h, mid, ("resume", 0), last)
+                    ev += 1
+                    r = run_history(d, S, hist)
+                    key = "ok" if r is None else r[1]
+                    outcomes[key] = outcomes.get(key, 0) + 1
+                    if r is not None:
+                        viol.append({"signature": "C03|reuse|suspended-iterator|%s|%s" % (r[1], r[2]), "size": len(str(S)) + 200,
+                                     "case": {"kind": "reuse", "draft": d, "schema": S,
+                                              "history": [[op, REUSE_INSTANCES[xi]] for op, xi in hist[:r[0] + 1]]},
+                                     "detail": {"exception": r[1], "where": r[2], "failing_call": r[0]}})
         if not samples:
             samples.append({"kind": "reuse", "draft": d, "schema": S, "history": [[op, REUSE_INSTANCES[xi]] for op, xi in ops[:2]]})
     return {"evaluations": ev, "nontrivial": ev, "violations": viol, "samples": samples, "outcomes": outcomes,
@@ -639,7 +664,8 @@ def plan(ctx):
                  "x every instance of U+ (routed into the wrapped position); REUSE: schemas with a root id (or none), a "
                  "subschema id (malformed, fragment-only, relative, absolute; directly or below another id) and a "
                  "$ref sibling, on ONE validator object every sequence of <= depth calls (entry point x instance), "
-                 "every call may only end in a documented way; SEVERAL ERRORS: every ordered pair of small "
+                 "every call may only end in a documented way (also: an iteration started, left suspended during another "
+                 "call, finished, then a further call); SEVERAL ERRORS: every ordered pair of small "
                  "subschemas (false included) in 9 two-slot positions x 10 instances through every entry point "
                  "(best_match sees ties between errors of different origin); DEEP CHAINS: every one-slot applicator "
                  "position nested 30 times around 4 leaves (schema size linear in the depth) x matching instances x 4 "
@@ -751,9 +777,18 @@ def replay(case, ctx):
         d, S = case["draft"], case["schema"]
         v = _e1.CLS[d](S)
         obs = None
+        held = []
         for i, (op, x) in enumerate(case["history"]):
             try:
-                reuse_call(v, d, S, op, x)
+                if op == "hold":
+                    it = v.iter_errors(x)
+                    next(it, None)
+                    held.append(it)
+                elif op == "resume":
+                    if held:
+                        list(held.pop(0))
+                else:
+                    reuse_call(v, d, S, op, x)
             except exceptions.RefResolutionError:
                 pass
             except exceptions.UnknownType:
